@@ -16,11 +16,21 @@ import time
 from . import rt, tree as T
 
 
+def _observe(t, spec):
+    """the read that precedes every op: the root's value, or (spec observe='leaves') every
+    node's weight and value from the securities upwards - dormant ones included"""
+    if spec.get("observe") == "leaves":
+        for n in reversed(list(t.root.members)):
+            n.weight
+            n.value
+    t.root.value
+
+
 def run_history(spec, hist, observe):
     t = T.Tree(spec)
     for op in hist:
         if observe:
-            t.root.value
+            _observe(t, spec)
         if not t.apply(op):
             return None
     return t
@@ -43,7 +53,7 @@ def expand(item):
             continue
         try:
             if observe:
-                t.root.value
+                _observe(t, spec)
             pre = mod.pre(t, op)
             if not t.apply(op):
                 res.append(("disabled", None, []))
@@ -75,7 +85,7 @@ def replay_case(modname, case):
     op = hist[-1]
     try:
         if observe:
-            t.root.value
+            _observe(t, spec)
         pre = mod.pre(t, op)
         t.apply(op)
         out = mod.post(t, op, pre)
